@@ -726,6 +726,10 @@ pub fn run_exec(spec: &ExecSpec, fss: &[FsSpec]) -> ExecResult {
     };
     GLOBAL_SEQ.store(0, Ordering::SeqCst);
     let order: Mutex<Vec<(u64, usize, usize)>> = Mutex::new(Vec::new());
+    // S4: the environment of this execution is a function of its first thread's key
+    if let Some(th) = spec.threads.first() {
+        crate::clock::apply_environment(th.key.0.wrapping_mul(31) ^ th.key.1);
+    }
 
     let results: Vec<Vec<TaskResult>> = std::thread::scope(|scope| {
         let mut handles = Vec::new();
@@ -738,6 +742,7 @@ pub fn run_exec(spec: &ExecSpec, fss: &[FsSpec]) -> ExecResult {
             let h = builder
                 .spawn_scoped(scope, move || {
                     crate::entropy::set_thread_key(th.key.0, th.key.1);
+                    crate::clock::set_thread_clock(th.key.0 ^ th.key.1.rotate_left(17));
                     let interleaved = n > 1;
                     if interleaved {
                         baton.wait_turn(ti);
@@ -762,6 +767,7 @@ pub fn run_exec(spec: &ExecSpec, fss: &[FsSpec]) -> ExecResult {
                     if interleaved {
                         baton.finish(ti);
                     }
+                    crate::clock::clear_thread_clock();
                     out
                 })
                 .expect("spawn task thread");
